@@ -504,7 +504,16 @@ def witness_cases(findings):
 
 def run(ctx):
     t0 = time.time()
-    st = vlib.proof_stage(ctx, "C01", PROOF_TARGETS, PROOF_FILES, slices=["c01"])
+    st = vlib.proof_stage(ctx, "C01", PROOF_TARGETS + ["TypifyModel.Proofs.Dispatch"], PROOF_FILES + ["Proofs/Dispatch.lean"], slices=["c01", "disp"])
+    # "schemas of the supported fragment are never rejected", at the shape dispatch of convert.rs: the arm every keyword combination
+    # ends in (the final `todo!()` included) against Model/Dispatch.lean over the keyword lattice (M0)
+    import dispstage
+    dstats, ddis = dispstage.stage(ctx, ctx.tier == "thorough") if st["driver_ok"] else ({"ran": False}, [])
+    ctx.log("shape dispatch M0: %s disagreements=%d" % ({k: v for k, v in dstats.items() if k != "arms"}, len(ddis)))
+    if ddis:
+        st["broken"].append("correspondence M0 (convert_schema_object dispatch vs Model/Dispatch.lean) disagrees on %d of %d schemas, first: %s"
+                            % (len(ddis), dstats.get("schemas", 0), json.dumps(ddis[0])[:500]))
+    st["dispatch_M0"] = dstats
     findings = all_findings()
     wits = witness_cases(findings)
     cases = [c for _, c in wits] + build_cases(ctx)
@@ -550,7 +559,7 @@ def run(ctx):
                              "first_disagreement": brief(first) if first else None, "lean_log": st.get("log", "")}, no_input=True)
     nontrivial = sum(1 for c in R["agree_ok"] if c.wf and c.wf.get("items", 0) >= 2)
     kinds = collections.Counter(c.kind for c in cases)
-    cov = {"obligations": st["obligations"], "discharged": st["discharged"],
+    cov = {"shape_dispatch_M0": st.get("dispatch_M0"), "obligations": st["obligations"], "discharged": st["discharged"],
            "checker_cmd": "cd /verif/lean && lake build TypifyModel.Proofs.C01 && lake env lean TypifyModel/Audit/C01.lean",
            "trusted_base": vlib.TRUSTED_BASE + ["rustc 1.80.1 + serde_derive 1.0.219 as the oracle for `Compiles` (batch pipeline, one module per case)",
                                                "tvh_m2 / the M2 correspondence of C19/C17/C14 for the Render model that `modOf` projects to"],
